@@ -18,7 +18,7 @@ RULE = ("A case is one numeric interval (1..4 distinct ranges of time-of-day / d
         "',' ';', trailing delimiter, whitespace, integer sequences of every allowed length, "
         "mixed string/sequence ranges, sets) plus probe moments (endpoints, +-1 us / +-1 day "
         "neighbours, random); or one malformed specification from a grammar of invalid inputs (incl. generated strings with digits glued to both sides of a month name or time of day); "
-        "or a TimeDate.parse/TimeSpan.parse call. Thorough adds all 366^2 date ranges x 366 "
+        "or a TimeDate.parse/TimeSpan.parse call; or a string glued from tokens of the notations (accepted: well-formed normal form surviving both round trips; refused: ValueError/TypeError). Thorough adds all 366^2 date ranges x 366 "
         "days and all 1440^2 minute-grid time ranges x 6 boundary probes. Non-trivial = interval "
         "with a wrapping or equal-endpoint range or >=2 ranges, rendered in >=2 different "
         "notation families; malformed cases count as non-trivial; distinct by descriptor.")
@@ -310,6 +310,52 @@ def glued_cases(draw):
     return {'k': 'glued', 'kind': kind, 'spec': spec}
 
 
+_SOUP_TOK = {
+    'time': st.one_of(st.integers(0, 61).map(str), st.integers(0, 61).map(lambda n: f"{n:02d}"),
+                      st.sampled_from([':', ':', ':', '.', ',', ';', '-', ' - ', '/', ' ', 'T', 'Z', '+', '000001',
+                                       '1230', '123059', '5', '24', '60'])),
+    'date': st.one_of(st.integers(0, 32).map(str), st.integers(0, 32).map(lambda n: f"{n:02d}"),
+                      st.sampled_from(['jan', 'Feb', 'MAR', 'apr.', 'may', 'june', 'Ju', 'sept', 'x', '.', '-', '--',
+                                       ' - ', '/', ',', ';', ' ', ' ', '0229', '1301'])),
+}
+_SOUP_TOK['datetime'] = st.one_of(_SOUP_TOK['time'], _SOUP_TOK['date'],
+                                  st.sampled_from(['2024', '1999', '2024-02-29', '20240229', '24', '12:30']))
+
+
+@st.composite
+def soup_cases(draw):
+    """strings glued from the tokens of the notations: whatever is accepted must be a well-formed interval
+    that survives both round trips, whatever is refused must be refused with ValueError / TypeError"""
+    kind = draw(st.sampled_from(['time', 'date', 'datetime']))
+    if draw(st.integers(0, 4)) == 0:
+        toks = draw(st.lists(_SOUP_TOK[kind], min_size=1, max_size=12))
+        return {'k': 'soup', 'kind': kind, 'spec': ''.join(toks)}
+    # a rendered valid interval, damaged in 0-3 places (characters inserted, deleted, replaced, swapped)
+    base = draw(interval_cases_of(kind))
+    text = None
+    for _ in range(4):
+        spec = base['notation'].get('spec')
+        if isinstance(spec, str):
+            text = spec
+            break
+        base = draw(interval_cases_of(kind))
+    if text is None:
+        text = ''
+    chars = list(text)
+    for _ in range(draw(st.integers(0, 3))):
+        op = draw(st.integers(0, 3))
+        if op == 0 or not chars:
+            chars.insert(draw(st.integers(0, len(chars))), draw(_SOUP_TOK[kind]))
+        elif op == 1:
+            del chars[draw(st.integers(0, len(chars) - 1))]
+        elif op == 2:
+            chars[draw(st.integers(0, len(chars) - 1))] = draw(_SOUP_TOK[kind])
+        elif len(chars) >= 2:
+            i = draw(st.integers(0, len(chars) - 2))
+            chars[i], chars[i + 1] = chars[i + 1], chars[i]
+    return {'k': 'soup', 'kind': kind, 'spec': ''.join(chars)}
+
+
 @st.composite
 def parse_cases(draw):
     """TimeDate.parse / TimeSpan.parse agree with the interval classes; weekdays."""
@@ -342,7 +388,7 @@ def interval_cases_of(draw, kind):
 
 def strategy(tier):
     return st.one_of(interval_cases(), interval_cases(), interval_cases(), bad_cases(), parse_cases(),
-                     glued_cases())
+                     glued_cases(), soup_cases())
 
 
 def exhaustive(tier):
@@ -564,6 +610,43 @@ def execute(case):
         res.nontrivial = True
         res.classes = ['bad/glued tokens']
         res.outcome = {'spec': spec}
+    elif k == 'soup':
+        cls = CLS[case['kind']]
+        spec = case['spec']
+        res.classes = ['soup/refused']
+        try:
+            obj = cls(spec)
+        except (ValueError, TypeError):
+            obj = None
+        except Exception as err:
+            res.fail('C13.malformed_wrong_exception', f"{cls.__name__}({spec!r}) raised {err!r}")
+            obj = None
+        if obj is not None:
+            res.classes = ['soup/accepted']
+            lst = obj.as_list()
+            limits = {'time': [(0, 23), (0, 59), (0, 59), (0, 999999)], 'date': [(1, 12), (1, 31)],
+                      'datetime': [(1, 9999), (1, 12), (1, 31), (0, 23), (0, 59), (0, 59), (0, 999999)]}[case['kind']]
+            shape_ok = isinstance(lst, list) and all(
+                isinstance(r, list) and len(r) == 2 and all(
+                    isinstance(ep, list) and len(ep) == len(limits)
+                    and all(type(v) is int and lo <= v <= hi for v, (lo, hi) in zip(ep, limits)) for ep in r)
+                for r in lst)
+            if not shape_ok:
+                res.fail('C13.normal_form', f"{cls.__name__}({spec!r}).as_list() = {lst!r}")
+            elif lst != sorted(lst):
+                res.fail('C13.normal_form', f"{cls.__name__}({spec!r}).as_list() is not sorted: {lst!r}")
+            else:
+                for how, arg in (('as_list', lst), ('as_string', obj.as_string())):
+                    try:
+                        again = cls(arg).as_list()
+                    except Exception as err:
+                        res.fail('C13.round_trip', f"{cls.__name__}({spec!r}).{how}() = {arg!r} is refused: {err!r}")
+                    else:
+                        if again != lst:
+                            res.fail('C13.round_trip', f"{cls.__name__}({spec!r}): {how}() = {arg!r} gives {again}, "
+                                     f"not {lst}")
+        res.nontrivial = obj is not None and bool(obj.as_list())
+        res.outcome = {'spec': spec, 'accepted': obj is not None}
     elif k == 'parse':
         times, dates, span = case['times'], case['dates'], case['span']
         wd = case['weekdays']
